@@ -352,6 +352,9 @@ def _for_symbolic(interp, node, frame, src):
         finally:
             interp.loop_index_stack.pop()
         if r is not None and r[0] != 'continue':
+            if it_cell is not None and it_cell.eager:
+                raise Unsupported('early exit from a loop over a generator that is used through its contract '
+                                  '(its items and effects are taken at the call: it must be consumed completely)')
             if r[0] == 'break':
                 return None
             return r
